@@ -158,9 +158,28 @@ def readStmt : List String → Option Stmt
     | _ => none
   | _ => none
 
+/-- `cte <e|f> (defs <name>*) <ref>`: the i-th CTE (a one-step body) is stored with result `t<i>`; how is the bare
+table name `ref` resolved?  `e` = keys as written (`CteKeys.exact`), `f` = case-folded (`CteKeys.folded`) -/
+def handleCte (toks : List String) : String :=
+  let nm (w : String) : Name := w.toList.map Char.toNat
+  match toks with
+  | v :: "(" :: "defs" :: rest =>
+    let k := if v == "f" then CteKeys.folded else CteKeys.exact
+    let defs := rest.takeWhile (· ≠ ")")
+    match rest.dropWhile (· ≠ ")") with
+    | [")", ref] =>
+      let dict := (defs.zipIdx).foldl (fun d (w, i) => cteStore k d (nm w) (.top i)) []
+      match cteRef k dict (nm ref) with
+      | .ok (some r) => s!"cte {showNum r}"
+      | .ok none => "table"
+      | .error _ => "err internal"
+    | _ => "bad-line"
+  | _ => "bad-line"
+
 def handle (line : String) : String :=
   let padded := ((line.trimAscii.toString).replace "(" " ( ").replace ")" " ) "
   match (padded.splitOn " ").filter (· ≠ "") with
+  | "cte" :: rest => handleCte rest
   | fx :: rest =>
     match readBool fx, readStmt rest with
     | some fixed, some q =>
